@@ -41,6 +41,10 @@ RevokeRT(j) == Revoke("A", "ok", "rt", j, "rt")
 RevokeAT(i) == Revoke("A", "ok", "at", i, "at")
 DevPre == <<DevStart("P", "ok", Full, Full, <<>>), DevDecide(1, "accept")>>
 
+JAuth(j) == [op |-> "jauth", val |-> j]
+JBearer(j) == [op |-> "jbearer", val |-> j]
+AuthzImplicit == Authz("A", "token", Full, Full, <<>>, "sent", "none")        \* at 1, nothing else
+
 Scn(name, cfg, pre, ps, po) == [name |-> name, cfg |-> cfg, pre |-> pre, procs |-> ps, post |-> po]
 
 (* C18: one request with injected storage errors, then a legitimate retry and a replay *)
@@ -54,6 +58,10 @@ FaultScenarios(store) ==
     Scn("revoke", CfgStore(store), <<AuthzCode, RedeemOK(1)>>, <<RevokeRT(1)>>, <<RevokeRT(1), RefreshOK(1)>>),
     Scn("authorize", CfgStore(store), <<>>, <<AuthzPkce>>, <<RedeemV(1, "none"), RedeemV(1, "right")>>),
     Scn("authorize_hybrid", CfgStore(store), <<>>, <<AuthzHyb>>, <<RedeemOK(1)>>),
+    Scn("implicit", CfgStore(store), <<>>, <<AuthzImplicit>>, <<>>),
+    Scn("revoke_at", CfgStore(store), <<AuthzCode, RedeemOK(1)>>, <<RevokeAT(1)>>, <<RevokeAT(1), RefreshOK(1)>>),
+    Scn("jbearer", CfgStore(store), <<>>, <<JBearer("j1")>>, <<>>),
+    Scn("jauth", CfgStore(store), <<>>, <<JAuth("j1")>>, <<>>),
     Scn("ccreds", CfgStore(store), <<>>, <<CCreds("A", "ok", <<"a">>, <<>>)>>, <<>>),
     Scn("password", CfgStore(store), <<>>, <<Password("A", "ok", "ok", <<"offline", "a">>, <<>>)>>, <<RefreshOK(1)>>),
     Scn("push", CfgStore(store), <<>>, <<Push("A", "ok", "code", <<"offline", "a">>, <<>>, "sent", "none", 0)>>, <<UsePar("A", "own", 1, "none")>>),
@@ -75,13 +83,22 @@ ScnConc2 ==
     Scn("devpoll||devpoll", [BaseCfg EXCEPT !.rscopes = <<>>], DevPre, <<DevPoll("P", "ok", 1), DevPoll("P", "ok", 1)>>, <<RefreshOK(1)>>),
     Scn("usepar||usepar", BaseCfg, <<Push("A", "ok", "code", <<"offline", "a">>, <<>>, "sent", "none", 0)>>,
         <<UsePar("A", "own", 1, "none"), UsePar("A", "own", 1, "none")>>, <<RedeemOK(1)>>),
+    Scn("redeem_pkce||redeem_pkce", BaseCfg, <<AuthzPkce>>, <<RedeemV(1, "right"), RedeemV(1, "right")>>, <<RefreshOK(1)>>),
+    Scn("reuse||refresh", BaseCfg, <<AuthzCode, RedeemOK(1), RefreshOK(1)>>, <<RefreshOK(1), RefreshOK(2)>>, <<RefreshOK(2), RefreshOK(3)>>),
+    Scn("authorize||usepar", BaseCfg, <<Push("A", "ok", "code", <<"offline", "a">>, <<>>, "sent", "none", 0)>>,
+        <<AuthzCode, UsePar("A", "own", 1, "none")>>, <<RedeemOK(1), RedeemOK(2)>>),
+    Scn("revokeAT||probe", BaseCfg, <<AuthzCode, RedeemOK(1)>>, <<RevokeAT(1), Probe("rt", 1)>>, <<RefreshOK(1)>>),
     Scn("password||ccreds", BaseCfg, <<>>, <<Password("A", "ok", "ok", <<"offline", "a">>, <<>>), CCreds("B", "ok", <<"a">>, <<>>)>>, <<RefreshOK(1)>>) }
 ScnConc3 ==
   { Scn("refresh||revoke||probe", BaseCfg, <<AuthzCode, RedeemOK(1)>>, <<RefreshOK(1), RevokeRT(1), Probe("rt", 1)>>, <<>>),
     Scn("revoke||revoke||probe", BaseCfg, <<AuthzCode, RedeemOK(1)>>, <<RevokeRT(1), RevokeAT(1), Probe("at", 1)>>, <<RefreshOK(1)>>) }
+(* three full requests at once: far too many interleavings to enumerate (21!/(7!)^3), always sampled *)
+ScnConc3Big ==
+  { Scn("refresh||refresh||refresh", BaseCfg, <<AuthzCode, RedeemOK(1)>>, <<RefreshOK(1), RefreshOK(1), RefreshOK(1)>>, <<RefreshOK(2)>>),
+    Scn("redeem||redeem||redeem", BaseCfg, <<AuthzCode>>, <<RedeemOK(1), RedeemOK(1), RedeemOK(1)>>, <<RefreshOK(1)>>),
+    Scn("reuse||refresh||revoke", BaseCfg, <<AuthzCode, RedeemOK(1), RefreshOK(1)>>, <<RefreshOK(1), RefreshOK(2), RevokeRT(2)>>, <<RefreshOK(2)>>),
+    Scn("redeem||refresh||revoke", BaseCfg, <<AuthzHyb, AuthzCode, RedeemOK(2)>>, <<RedeemOK(1), RefreshOK(1), RevokeAT(1)>>, <<RefreshOK(2)>>) }
 (* C15: the same assertion presented by two / three requests at once; different jtis do not interfere *)
-JAuth(j) == [op |-> "jauth", val |-> j]
-JBearer(j) == [op |-> "jbearer", val |-> j]
 ScnJti ==
   { Scn("jauth||jauth", BaseCfg, <<>>, <<JAuth("j1"), JAuth("j1")>>, <<>>),
     Scn("jauth||jauth||jauth", BaseCfg, <<>>, <<JAuth("j1"), JAuth("j1"), JAuth("j1")>>, <<>>),
